@@ -7,6 +7,30 @@ V = os.path.dirname(os.path.dirname(os.path.abspath(__file__)))
 TECH = "deterministic simulation with fault injection: "
 
 checks = {
+ "C03": dict(level="exploration", design="§4 C03",
+   technique=TECH + "seeded programs x input histories with restarts and failing external calls, refinement of the recorded move history against the reference model refvm",
+   text="Seeded search over generated INCMP blocks (duplicates, wildcard anywhere, relative targets) and input histories; the ordered code fetches of every request (one per successful move) must equal the routing decision of an independent reference model written from the documentation; unmatched input must land on the catch node showing the input. Sampling, not proof.",
+   note="Trusted: refvm (model of the VM over the IR), the independent bytecode encoder, one-GetCode-per-move observation. The model abstains after execution errors."),
+ "C04": dict(level="exploration", design="§4 C04",
+   technique=TECH + "seeded move histories with single-candidate routing, restarts on all backends, refinement of position against refvm's move table",
+   text="Seeded search over node graphs with every target kind from MOVE, INCMP and CATCH and histories of descents, ascents, rewinds, repeats, lateral and failing moves, with restarts on memory, filesystem and Postgres-fake; after every request (path, page index) read from the live/persisted state must equal the documented table, and a failing move must report failure. Sampling.",
+   note="Trusted: refvm move table; requests whose number of moves differs from the model are left to C03/C06 (counted). '^' on the entry node with a non-zero index is not compared."),
+ "C05": dict(level="exploration", design="§4 C05",
+   technique=TECH + "seeded LOAD/RELOAD/MAP programs x up/down histories with failing, empty and oversized external results and restarts, refinement of call log, symbol tables and shown values against refvm",
+   text="Seeded search over programs loading the same symbols at several depths with results around every limit (empty, at limit, over limit, >= 64 KiB); external call log, per-level symbol tables and values shown on the page must equal the reference model's after every request, templates referencing an unmapped symbol must fail to render, and no stored value may exceed its limit. Sampling.",
+   note="Trusted: refvm; output parser over sentinel templates. Compared only while the position agrees with the model (skipped_upstream otherwise)."),
+ "C06": dict(level="exploration", design="§4 C06",
+   technique=TECH + "adversarial flag lists injected through external results (reserved indices, TERMINATE), restarts; refinement against refvm plus a stripped-reserved-flags differential twin",
+   text="Seeded search over CATCH/CROAK programs whose external functions request arbitrary flag changes; (A) moves and client flags must equal the model's, (B) a twin with indices 0..5 stripped from every result must behave identically down to the stored flag bytes, (C) once TERMINATE is set every request must report stop, output nothing, fetch no code, call nothing and leave the session unchanged. Sampling.",
+   note="Trusted: refvm; twin comparison cannot mis-model the code. Built-in bookkeeping flags are compared only between twins."),
+ "C18": dict(level="exploration", design="§4 C18",
+   technique=TECH + "language switches injected through external results (valid, invalid, repeated) with partial translation tables and restarts, over two resource stacks; refinement against refvm's language per lookup",
+   text="Seeded search over programs that switch language at arbitrary points; the language on the context of every external call and of every template/menu lookup (harness resource) or store lookup (library DbResource over a recording store), also after restart, must be the model's current language; pages must show the translated template/label when one exists and the default entry otherwise; invalid codes must change nothing. Sampling.",
+   note="Trusted: refvm language rules; a small table of valid ISO-639 codes in the model."),
+ "C20": dict(level="exploration", design="§4 C20",
+   technique=TECH + "histories continuing past graceful and abnormal session ends with a restart before every request on all backends, refinement against refvm's end/blocked behaviour",
+   text="Seeded search over programs with both kinds of end node and TERMINATE-setting external code; after a graceful end the stored session must have an empty symbol cache and the same client flags and the next request must run the entry node afresh; after an abnormal end every later request must report stop, output nothing and run nothing until the harness clears the flag. Sampling.",
+   note="Trusted: refvm; nothing is asserted after the harness cleared TERMINATE or when the final page cannot be rendered."),
  "C09": dict(level="exploration", design="§4 C09",
    technique=TECH + "seeded cache operation histories with snapshot/restore (restart) injected between operations, refinement against a reference cache, failure-atomicity check",
    text="Seeded operation histories over the cache API (values across the 16-bit boundary, limits, capacities) checked operation by operation against a small reference cache: limit and capacity enforcement, exact byte accounting, one scope per symbol, release on Pop/Reset, and unchanged exported state after every rejected operation; a sub-batch serialises and restores the cache between operations. The cache is sequential: the family contributes histories, restart as a fault and the model, not schedules. Sampling.",
